@@ -444,7 +444,7 @@ class C18(Property):
                "bodyraw_nl", "bodyraw_notb64", "bodyraw_short", "chunked", "aeskey_bad", "limit_small", "nonstrict",
                "body_after", "fp_empty", "hdrfmt_nospace", "hdrfmt_spaces", "hdrfmt_trailing", "hdrfmt_junk",
                "hdrfmt_dupsig_good_last", "hdrfmt_dupsig_bad_last", "hdrfmt_upper",
-               "clen_more", "clen_less", "flush", "gzenc", "secpad", "secpad_gz"]
+               "clen_more", "clen_less", "flush", "gzenc", "secpad", "secpad_gz", "sbody_tail", "sbody_head", "sbody_prefix", "sbody_prefix", "sbody_prefix", "sbody_suffix"]
     CRYPT_MUTS = ["none", "none", "none", "cipher_trunc", "cipher_lastbyte", "cipher_wrongkey", "cipher_dropblock",
                   "bodyraw_nl", "bodyraw_notb64", "bodyraw_short", "chunked", "aeskey_bad", "limit_small", "plain_body",
                   "clen_more", "clen_less", "nobody_badkey", "flush", "chunked_empty"]
@@ -468,6 +468,24 @@ class C18(Property):
             r["squery"] = r["query"] + rng.choice(["&z=9", "x", "&"])
         elif mut == "sbody":
             r["sbody"] = rng.choice(["", "other body", "hellp"])
+        elif mut in ("sbody_tail", "sbody_head"):
+            # signed over a body that differs from the one sent in a single byte, at the very end / start
+            # (a digest over a prefix or a suffix of the body would not notice)
+            r["enc"] = False
+            if len(r["body"]) < 2 or rng.random() < 0.7:
+                n = rng.choice([2, 40, 65, 100, 257, 300, 1000, 1025])
+                r["body"] = "".join(rng.choice("abcdefghij0123456789") for _ in range(n))
+            b = r["body"]
+            r["sbody"] = (b[:-1] + chr(ord(b[-1]) ^ 1)) if mut == "sbody_tail" else (chr(ord(b[0]) ^ 1) + b[1:])
+        elif mut in ("sbody_prefix", "sbody_suffix"):
+            # the signed body is a proper prefix / suffix of the body sent (bytes appended / prepended after
+            # signing), at lengths where a bounded or block-wise digest would stop looking
+            r["enc"] = False
+            n = rng.choice([0, 16, 64, 128, 256, 512, 1024])
+            signed = "".join(rng.choice("abcdefghij0123456789") for _ in range(n))
+            extra = "".join(rng.choice("xyz") for _ in range(rng.choice([1, 1, 16, 100])))
+            r["sbody"] = signed
+            r["body"] = signed + extra if mut == "sbody_prefix" else extra + signed
         elif mut == "body_after":
             r["bodyraw"] = rng.choice(["tampered", "", "aGVsbG8="])
             r["sbody"] = "original"
@@ -940,7 +958,7 @@ class C18(Property):
                                             cbool(so["bindok"]), clist(reqs))
 
     SRV_SECRETS = ["secret-one-0001", "secret-two-0002", "secret-three-03"]
-    SRV_MUTS = ["none", "none", "none", "toff_edge", "toff_out", "tsraw", "smethod", "spath", "squery", "sbody", "stoff", "skey",
+    SRV_MUTS = ["none", "none", "none", "sbody_tail", "sbody_prefix", "toff_edge", "toff_out", "tsraw", "smethod", "spath", "squery", "sbody", "stoff", "skey",
                 "rsa_garbage", "hdr_missing", "hdr_nosig", "hdr_nofp", "sig_flip", "sig_other", "ctype_other", "body_after",
                 "hdrfmt_dupsig_bad_last", "cipher_lastbyte", "fp_unknown"]
     JWT_OK_CLS = ("valid", "auth_lower", "auth_upper", "auth_noprefix", "exp_next", "nbf_now", "iat_now", "siglast",
